@@ -347,9 +347,15 @@ def run(prop, tier, seed, replay=None):
         except Ambiguous:
             ambiguous += 1
             why = None
+        except Exception as e:  # noqa  -- an output the comparison cannot even digest is a disagreement
+            why = "comparison raised %s: %s (implementation output malformed?)" % (type(e).__name__, str(e)[:200])
         if why:
             mism.append((i, why))
-        ofail = prop.oracle(c, impl_out[i]) if hasattr(prop, "oracle") else None
+        try:
+            ofail = prop.oracle(c, impl_out[i]) if hasattr(prop, "oracle") else None
+        except Exception as e:  # noqa  -- fail closed: the property cannot be confirmed on this output
+            ofail = None
+            mism.append((i, "property oracle raised %s: %s on the implementation's output" % (type(e).__name__, str(e)[:200])))
         if ofail:
             oracle_fail.append((i, ofail))
         try:
